@@ -6,7 +6,8 @@ PROP = dict(
                        "value (GetShortID is a prefix of the id of at most 11 bytes; Link-header URLs are non-empty)"]),
         dict(driver="dispatch", binary="zsafe", quick=3000, thorough=60000, shard=500,
              monitors=["dispatch_nil_safe (an item satisfying the archiver's invariant is processed without a panic)",
-                       "not_archived_untouched (an item in another state is returned as it came)"]),
+                       "not_archived_untouched (an item in another state is returned as it came)",
+                       "archiver_establishes_invariant (an item prepared by the real archiver.ProcessBody, which returned nil, has response, MIME and parsed URL set)"]),
         dict(driver="fuzz", binary="zsafe", quick=12000, thorough=300000, shard=4000,
              monitors=["no_panic (recover() in the child caught nothing)",
                        "no_hang (the child answered within the watchdog; a missing answer counts when reproduced on a fresh child with the watchdog doubled)",
@@ -24,7 +25,8 @@ PROP = dict(
         "the byte-level models of strings.IndexByte/LastIndexByte/HasPrefix/Contains/Split/SplitN/SplitAfterN/Trim/TrimSpace and of the rune "
         "stepping of `range` over a string say what the Go library does (total functions; compared with the real library by the scan driver on every run)",
         "archiver invariant: an item whose state is ItemArchived has a response, a MIME type and a parsed URL (archiver.go sets the response after "
-        "client.Do succeeded and ProcessBody sets the MIME before returning nil); without it postprocessItem does dereference nil "
+        "client.Do succeeded and ProcessBody sets the MIME before returning nil: C10_process_body_sets_mime on the control-flow model, and the "
+        "monitor archiver_establishes_invariant on the REAL ProcessBody in the dispatch and fuzz/arch legs); without it postprocessItem does dereference nil "
         "(lemmas dispatch_unguarded_refuted, dispatch_unguarded_mime_refuted; replayed on the real function by the dispatch driver)",
         "extractors return no nil entries in their outlink slices and a freshly made child item has no parent (so AddChild cannot fail)",
         "int counters do not overflow (inputs far below 2^63 bytes)",
